@@ -237,6 +237,9 @@ def observe(o):
         ev['len'] = len(o)
         ev['contains'] = [bool(n in o) for n in names]
         probes = ['', 'nope', 'name', 'index', '__slots__', 'validate', '_' + (names[0] if names else 'x')]
+        for n in names:          # near misses of every real name
+            probes += [n.rstrip('_'), n + '_', n[:-1], n.upper(), n.replace('_', '-'), n + ' ', ' ' + n]
+        probes = [q for q in dict.fromkeys(probes) if q not in names]
         ev['probes'] = probes
         ev['contains_probe'] = [bool(p in o) for p in probes]
         ev['getitem'] = [abstract(o[n]) for n in names]
